@@ -72,26 +72,6 @@ theorem quirks_agree :
       (({} : Quirks).scannerDisconnect, !({} : Quirks).hookUnbound, !({} : Quirks).dbOpenUnguarded,
         ({} : Quirks).mkdirExistOk) := by decide
 
-/-- the closed form all theorems about a benign world start from -/
-theorem entryPoint_fields (c : Cfg) (s : Script) :
-    let f := entryPoint c s
-    let x := code c s
-    f.exit = .ret x ∧ f.lockReleased = true ∧ f.logClosed = true ∧ f.dbClosed = true ∧
-    f.preRan = c.hooks ∧ f.reports = failing c s ∧
-    f.metaFile = (if c.art then some ⟨x, 0, stopTick {} c s⟩ else none) ∧
-    f.dbRow = (if c.db && !s.dbFails then .done (startTick {} c s) (stopTick {} c s + 1) x else .absent) ∧
-    f.postEnv = (if c.hooks then some ⟨x, x, stopTick {} c s⟩ else none) := by
-  rw [entryPoint_eq]
-  obtain ⟨h1, h2, h3, h4, h5, h6, h7, h8, h9, -⟩ := started_fields {} c s
-  exact ⟨h1, h2, h3, h4, h5, h6, h7, h8, h9⟩
-
-theorem entryPoint_trace (c : Cfg) (s : Script) :
-    (entryPoint c s).trace =
-      (if c.hooks then [⟨.pre, c.lock, false⟩] else []) ++
-      (if c.db && s.dbFails then [] else (bodyActs c s).map (fun a => ⟨a, c.lock, false⟩)) ++
-      (if c.hooks then [⟨.post, c.lock, c.art⟩] else []) := by
-  rw [entryPoint_eq]; exact started_trace {} c s
-
 /-! ## the headline theorems -/
 
 /-- `entry_point()` always returns (nothing escapes), and the code follows the documented mapping:
@@ -151,39 +131,6 @@ theorem lock_held_throughout (c : Cfg) (s : Script) :
     · simp at ho
     · simp only [List.mem_map] at ho; obtain ⟨a, -, rfl⟩ := ho; rfl
   · cases hh : c.hooks <;> simp [hh] at ho; subst ho; rfl
-
-/-- no step of `setup()` / `main()` / `teardown()` is a hook -/
-theorem bodyActs_no_hook (c : Cfg) (s : Script) : Act.post ∉ bodyActs c s ∧ Act.pre ∉ bodyActs c s := by
-  have hs : ∀ p ∈ setupSteps c s, p.act ≠ .post ∧ p.act ≠ .pre := by
-    have h : (setupSteps c s).all (fun p => p.act != .post && p.act != .pre) = true := by
-      unfold setupSteps scannerSetup udsSetup
-      cases c.kind <;> cases c.power <;> cases (c.art && c.dumpcap) <;> cases c.tp <;> cases c.props <;>
-        cases s.dumpcap <;> simp [Kind.isScanner, Kind.isUds, dumpcapStep]
-    intro p hp
-    have := List.all_eq_true.mp h p hp
-    simpa using this
-  have ht : ∀ p ∈ teardownSteps {} c s, p.act ≠ .post ∧ p.act ≠ .pre := by
-    have h : (teardownSteps {} c s).all (fun p => p.act != .post && p.act != .pre) = true := by
-      unfold teardownSteps scannerTeardown udsTeardown
-      cases c.kind <;> cases dumpcapActive c s <;> cases c.tp <;> cases c.props <;>
-        simp [Kind.isScanner, Kind.isUds]
-    intro p hp
-    have := List.all_eq_true.mp h p hp
-    simpa using this
-  have key : ∀ p ∈ bodySteps c s, p.act ≠ .post ∧ p.act ≠ .pre := by
-    intro p hp
-    unfold bodySteps at hp
-    rcases List.mem_append.mp hp with hp | hp
-    · exact hs p (performed_sublist _ p hp)
-    · split at hp
-      · rcases List.mem_cons.mp hp with rfl | hp
-        · exact ⟨by decide, by decide⟩
-        · exact ht p (performed_sublist _ p hp)
-      · simp at hp
-  unfold bodyActs
-  constructor <;> (intro h; obtain ⟨p, hp, he⟩ := List.mem_map.mp h)
-  · exact (key p hp).1 he
-  · exact (key p hp).2 he
 
 /-- META.json is written after teardown and before the post-hook: no action of the run sees it but the post-hook -/
 theorem meta_written_after_teardown (c : Cfg) (s : Script) :
